@@ -32,7 +32,9 @@ def prepare_alt():
     """Mirror coq/ and harness/ into the private work area of an alternate repo."""
     if not ALT:
         return
-    subprocess.run(["rsync", "-a", "--delete", os.path.join(VERIF, "coq") + "/", COQ + "/"], check=True)
+    r = subprocess.run(["rsync", "-a", "--delete", os.path.join(VERIF, "coq") + "/", COQ + "/"])
+    if r.returncode not in (0, 24):     # 24 = a file vanished while copying (a concurrent build): harmless
+        raise RuntimeError("rsync of coq/ failed: %d" % r.returncode)
     os.makedirs(os.path.join(COQ, "theories", "Gen"), exist_ok=True)
     subprocess.run(["rsync", "-a", "--delete", "--exclude", "target", os.path.join(VERIF, "harness") + "/", HARNESS_DIR + "/"], check=True)
     ct = os.path.join(HARNESS_DIR, "Cargo.toml")
